@@ -19,6 +19,8 @@ def parseTy : String → Option Ty
   | "int" => some .int
   | "text" => some .text
   | "boolean" => some .bool
+  | "list" => some .list
+  | "udt" => some .udt
   | _ => none
 
 /-- `n` fields from the token list (fuel bounds the nesting + length) -/
@@ -134,7 +136,7 @@ def showRes : Except Err (List Val) → String
 def valOk (f : Field) (v : Val) : Bool :=
   match v with
   | none => f.opt
-  | some b => if f.ty == .int then b.length == 4 else b.all (· < 128)
+  | some b => if f.ty == .int then b.length == 4 else if f.ty == .text then b.all (· < 128) else true
 
 def splitSemi (ws : List String) : List (List String) :=
   ws.foldr (fun w acc =>
